@@ -1112,6 +1112,25 @@ theorem conforming_accepted_needs_unambiguity :
   show Conf _ _ _ ([tk 5 ['1']] ++ [])
   exact .seq (n := 1) (.succ (.int (r := (1, false)) rfl (by decide)) .zero)
 
+/-! ## known finding `C01-ifdata-integral-float`: the witness on the model -/
+
+/-- `VENDOR 5.0 /end ...` where Rust prints the value of `5.0` as `5` (the `fl` entry of the token) -/
+def intFloatToks1 : Array PTok :=
+  #[tk 0 "VENDOR".toList, tk 5 "5.0".toList 1 (some ['5']), tk 2 "/end".toList, tk 0 "IF_DATA".toList]
+/-- what is written for it, read again: `VENDOR 5 /end ...` -/
+def intFloatToks2 : Array PTok :=
+  #[tk 0 "VENDOR".toList, tk 5 ['5'] 1 (some ['5']), tk 2 "/end".toList, tk 0 "IF_DATA".toList]
+
+/-- **uninterpreted IF_DATA does not survive a save / reload cycle when it holds a float with an integral value**: the
+    first load stores a float (`WV.f64`, printed `5`), the reload of the written text stores the integer 5 — the two
+    models differ although the text is stable. (Inside interpreted IF_DATA the definition decides the type.) -/
+theorem integral_float_reread_as_integer :
+    resOf (parseIfdata exF32 [] exCtx (specialEnv intFloatToks1 false) {}) =
+      some ([.ident "VENDOR".toList, .f64 ['5']], false, 2) ∧
+    resOf (parseIfdata exF32 [] exCtx (specialEnv intFloatToks2 false) {}) =
+      some ([.ident "VENDOR".toList, .int 2 5 false], false, 2) := by
+  constructor <;> decide +kernel
+
 /-! ## several definitions: the first one that accepts decides (built-in specification first, then the file's) -/
 
 /-- `parser.a2mlspec`: the built-in specification argument, then the A2ML blocks read so far, in file order -/
